@@ -331,6 +331,27 @@ def proof_step(property_file, allowed_axioms=(), timeout=1500):
     return res
 
 
+def coqchk(property_file, timeout=1500):
+    """Re-check a compiled property file and everything it depends on with the independent checker; returns
+    {'ok', 'axioms': [...], 'summary': text}.  Used by the thorough tier."""
+    mod = 'CF.' + property_file[:-2].replace('/', '.')
+    r = subprocess.run(['timeout', str(timeout), 'coqchk', '-silent', '-o', '-Q', '.', 'CF', mod], cwd=COQ_DIR,
+                       stdout=subprocess.PIPE, stderr=subprocess.STDOUT, text=True)
+    out = r.stdout
+    summ = out[out.find('CONTEXT SUMMARY'):] if 'CONTEXT SUMMARY' in out else out[-1500:]
+    axioms = []
+    m = re.search(r'\* Axioms:(.*?)\n\s*\n\* ', summ, re.S)
+    if m:
+        axioms = [l.strip() for l in m.group(1).split('\n') if l.strip() and l.strip() != '<none>']
+    bad = []
+    for key in ('type-in-type', 'unsafe (co)fixpoints', 'positivity is assumed'):
+        m2 = re.search(re.escape(key) + r':(.*?)\n\s*\n', summ + '\n\n', re.S)
+        if m2 and m2.group(1).strip() not in ('<none>', ''):
+            bad.append(key)
+    return {'ok': r.returncode == 0 and not bad, 'rc': r.returncode, 'axioms': axioms, 'unsafe': bad,
+            'summary': summ[-3000:]}
+
+
 # ---------------------------------------------------------------- model evaluation
 
 def z(n):
